@@ -252,6 +252,56 @@ def style_of(b):
     return tuple(b[5]) if len(b) > 5 else DEFAULT_STYLE
 
 
+# --------------------------------------------------------------------------
+# the pinned public signatures (as on the clean tree - data, not read from the tree under test) and every
+# legal call form of them.  A case may carry 'forms': [sre, filter, rpoe, rwc] (indices into the lists below).
+#   save_and_reraise_exception(reraise=True, logger=None)
+#   exception_filter(should_ignore_ex)
+#   remove_path_on_error(path, remove=delete_if_exists)
+#   raise_with_cause(exc_cls, message, *args, **kwargs)        [cause=... is a keyword]
+#   forever_retry_uncaught_exceptions(*args, **kwargs)          [retry_delay=1.0, same_log_delay=60.0 keywords;
+#                                                                bare decorator or called] - see check_forever_retry
+PINNED = {
+    'save_and_reraise_exception': (('reraise', True), ('logger', None)),
+    'exception_filter': (('should_ignore_ex',),),
+    'remove_path_on_error': (('path',), ('remove', 'fileutils.delete_if_exists')),
+    'raise_with_cause': (('exc_cls',), ('message',)),
+}
+# (how reraise is passed, how logger is passed): 'omit' / 'pos' / 'kw' / 'kw2' (keywords, logger first)
+SRE_FORMS = [('omit', 'omit'), ('pos', 'omit'), ('kw', 'omit'), ('pos', 'pos'), ('pos', 'kw'), ('kw', 'kw'),
+             ('kw2', 'kw2'), ('omit', 'kw')]
+FILTER_FORMS = ['decorator', 'pos', 'kw']                # @exception_filter / exception_filter(f) / (should_ignore_ex=f)
+RPOE_FORMS = [('pos', 'std'), ('kw', 'std'), ('pos', 'pos'), ('pos', 'kw'), ('kw', 'kw'), ('kw2', 'kw2')]
+#   'std': remove omitted when it is the default remover, keyword otherwise
+RWC_FORMS = [('pos', 'pos'), ('pos', 'kw'), ('kw', 'kw'), ('kw2', 'kw2')]
+DEFAULT_FORMS = (5, 0, 0, 0)
+
+
+def forms_of(case):
+    f = tuple(case.get('forms') or DEFAULT_FORMS)
+    return f + DEFAULT_FORMS[len(f):]
+
+
+def sre_call(form, flag_src, flag_known_true):
+    """source of the constructor call in the given form for the logical arguments (flag, logger L / default);
+    returns (source, sink) - sink is where the dropped original must be logged"""
+    r, lg = SRE_FORMS[form]
+    if r == 'omit' and not flag_known_true:
+        r = 'kw'                                   # the default cannot express reraise=False
+    parts = []
+    if r == 'pos':
+        parts.append(flag_src)
+    if lg == 'pos':
+        parts.append('L')
+    if lg == 'kw2':
+        parts.append('logger=L')
+    if r in ('kw', 'kw2'):
+        parts.append('reraise=%s' % flag_src)
+    if lg == 'kw':
+        parts.append('logger=L')
+    return 'X.save_and_reraise_exception(%s)' % ', '.join(parts), ('root' if lg == 'omit' else 'L')
+
+
 def cause_index(k):
     """a 'chained' E[k] was raised `from` this other declared exception"""
     return (k + 2) % 3
@@ -264,15 +314,19 @@ class Rendered:
 _render_cache = {}
 
 
-def render(body, spy):
-    """body -> (compiled scenario function, filter specs).  The source depends on the body only."""
-    key = (ser(body), spy)
+def render(body, spy, forms=DEFAULT_FORMS):
+    """body -> (compiled scenario function, filter specs).  The source depends on the body and the call forms."""
+    key = (ser(body), spy, forms)
     hit = _render_cache.get(key)
     if hit is not None:
         return hit
+    cform, fform, pform, wform = forms
+    c0_src, c0_sink = sre_call(cform, 'FLAG', False)
     lines = ['def scenario(E, L, X, FU, FILT, OBJ, PATH, RMS, CAUSED, SPY, FLAG, OUT):',
-             '    c0 = X.save_and_reraise_exception(reraise=FLAG, logger=L)',
+             '    c0 = %s' % c0_src,
              '    OUT.append(c0)']
+    if spy:
+        lines.append('    SPY.made(0, c0, FLAG, %r)' % c0_sink)
     filt = []
     counter = [0]
 
@@ -306,14 +360,17 @@ def render(body, spy):
                 lines.append(p + '    raise E[%d]' % b[1])
                 lines.append(p + 'except BaseException:')
                 q, wi = p + '    ', ind + 1
-            head = 'with X.save_and_reraise_exception(reraise=%s, logger=L) as c%d:' % (bool(flag), i)
+            call, sink = sre_call(cform, str(bool(flag)), bool(flag))
             if spy:
+                # the object is made first so that the probe can check what `__enter__` hands to `as`
                 lines.append(q + 'with SPY.sre_out(%d):' % i)
-                lines.append(q + '    ' + head)
-                lines.append(q + '        with SPY.sre_in(%d, c%d):' % (i, i))
+                lines.append(q + '    k%d = %s' % (i, call))
+                lines.append(q + '    SPY.made(%d, k%d, %s, %r)' % (i, i, bool(flag), sink))
+                lines.append(q + '    with k%d as c%d:' % (i, i))
+                lines.append(q + '        with SPY.sre_in(%d, c%d, k%d):' % (i, i, i))
                 emit(inner, wi + 3, i)
             else:
-                lines.append(q + head)
+                lines.append(q + 'with %s as c%d:' % (call, i))
                 emit(inner, wi + 1, i)
             if t != 'nest':
                 # reached only when the with statement (and the try) ended normally: operations on the exited c<i>
@@ -321,8 +378,8 @@ def render(body, spy):
         elif t == 'ec':
             if spy:
                 lines.append(p + 'with SPY.sre_out(%d):' % ctx)
-                lines.append(p + '    with c%d:' % ctx)
-                lines.append(p + '        with SPY.sre_in(%d, c%d):' % (ctx, ctx))
+                lines.append(p + '    with c%d as again%d:' % (ctx, ctx))
+                lines.append(p + '        with SPY.sre_in(%d, again%d, c%d):' % (ctx, ctx, ctx))
                 emit(b[1], ind + 3, ctx)
             else:
                 lines.append(p + 'with c%d:' % ctx)
@@ -362,8 +419,9 @@ def render(body, spy):
             if spy:
                 i = fresh()
                 lines.append(p + 'with SPY.fx_out(%d, %d):' % (i, j))
-                lines.append(p + '    with %s:' % fexpr)
-                lines.append(p + '        with SPY.plain_in(%d):' % i)
+                lines.append(p + '    fk%d = %s' % (i, fexpr))
+                lines.append(p + '    with fk%d as fv%d:' % (i, i))
+                lines.append(p + '        with SPY.plain_in(%d, fv%d, fk%d):' % (i, i, i))
                 emit(b[4], ind + 3, ctx)
             else:
                 lines.append(p + 'with %s:' % fexpr)
@@ -379,8 +437,20 @@ def render(body, spy):
                 lines.append(p + '%s(E[%d])' % (fexpr, b[4]))
         elif t == 'rp':
             rm = b[1]
-            arg = 'PATH' if rm == 'd' else ('PATH, remove=RMS[%r]' % (rm if rm in ('n', 'w') else int(rm[1:])))
-            head = 'with FU.remove_path_on_error(%s):' % arg
+            pf, rf = RPOE_FORMS[pform]
+            rsrc = 'RMS[%r]' % (rm if rm in ('n', 'w', 'd') else int(rm[1:]))
+            if rf == 'std':
+                rf = 'omit' if rm == 'd' else 'kw'
+            parts = ['PATH'] if pf == 'pos' else []
+            if rf == 'pos':
+                parts.append(rsrc)
+            if rf == 'kw2':
+                parts.append('remove=%s' % rsrc)
+            if pf in ('kw', 'kw2'):
+                parts.append('path=PATH')
+            if rf == 'kw':
+                parts.append('remove=%s' % rsrc)
+            head = 'with FU.remove_path_on_error(%s):' % ', '.join(parts)
             if spy:
                 i = fresh()
                 lines.append(p + 'with SPY.rp_out(%d, %r):' % (i, rm))
@@ -393,7 +463,17 @@ def render(body, spy):
         elif t == 'rwc':
             x = b[1]
             arg = '' if x == 'N' else (', cause=None' if x == 'none' else ', cause=E[%d]' % int(x))
-            call = 'X.raise_with_cause(CAUSED, "m"%s)' % arg
+            cf, mf = RWC_FORMS[wform]
+            parts = ['CAUSED'] if cf == 'pos' else []
+            if mf == 'pos':
+                parts.append('"m"')
+            if mf == 'kw2':
+                parts.append('message="m"')
+            if cf in ('kw', 'kw2'):
+                parts.append('exc_cls=CAUSED')
+            if mf == 'kw':
+                parts.append('message="m"')
+            call = 'X.raise_with_cause(%s%s)' % (', '.join(parts), arg)
             if spy:
                 lines.append(p + 'with SPY.rwc(%r):' % (x,))
                 lines.append(p + '    ' + call)
@@ -444,15 +524,16 @@ class Env:
         self.path = os.path.join(self.dir, 'p')
         self.pending = None
         self.log = []
+        self.sinks = []
         env = self
 
         class Handler(logging.Handler):
             def emit(self, record):
-                env.logged()
+                env.logged('root')
 
         class ListLogger:
             def error(self, msg, *args, **kw):
-                env.logged()
+                env.logged('L')
 
         self.L = ListLogger()
         self.handler = Handler()
@@ -486,12 +567,20 @@ class Env:
         self.delegating = delegating_remove
         self.twins = {}
 
-        def make_filters(E, specs):
+        def make_filters(E, specs, how='decorator'):
             """(FILT, OBJ) for the filter operations of one scenario, in rendering order.  All instance-method
             filters of the scenario live on ONE class (an instance per distinct table, and a decoy instance with
             the opposite table whose filter is looked up and used first); all classmethod filters on subclasses
             (one per table, plus a decoy) of ONE base class; the predicate reads the table from the function's
             closure / `self` / `cls` respectively."""
+            if how == 'decorator':
+                deco = excutils.exception_filter
+            elif how == 'pos':
+                def deco(f):
+                    return excutils.exception_filter(f)
+            else:
+                def deco(f):
+                    return excutils.exception_filter(should_ignore_ex=f)
             FILT, OBJ = [None] * len(specs), [None] * len(specs)
             forms = set(sp[0] for sp in specs)
             ids = range(len(E))
@@ -500,7 +589,7 @@ class Env:
                     def __init__(self, accept, raises, yes=True, no=False):
                         self.accept, self.raises, self.yes, self.no = accept, raises, yes, no
 
-                    @excutils.exception_filter
+                    @deco
                     def pred(self, ex):
                         for k, v in enumerate(E):
                             if v is ex:
@@ -513,7 +602,7 @@ class Env:
                 class IgnorerC:
                     accept, raises, yes, no = (), {}, True, False
 
-                    @excutils.exception_filter
+                    @deco
                     @classmethod
                     def pred(cls, ex):
                         for k, v in enumerate(E):
@@ -529,7 +618,7 @@ class Env:
                 key = (accept, raises, style)
                 yes, no = VALS[style[0]], VALS[style[1]]
                 if form == 0:
-                    @excutils.exception_filter
+                    @deco
                     def pred(ex, accept=accept, rd=rd, yes=yes, no=no):
                         for k, v in enumerate(E):
                             if v is ex:
@@ -562,7 +651,7 @@ class Env:
                     OBJ[j] = subs[key] if form == 2 else subs[key]()
                 else:
                     class IgnorerS:
-                        @excutils.exception_filter
+                        @deco
                         @staticmethod
                         def pred(ex, accept=accept, rd=rd, yes=yes, no=no):
                             for k, v in enumerate(E):
@@ -600,8 +689,9 @@ class Env:
         self.root.removeHandler(self.handler)
         shutil.rmtree(self.dir, ignore_errors=True)
 
-    def logged(self):
+    def logged(self, sink):
         self.log.append(self.pending)
+        self.sinks.append(sink)
         self.pending = None
 
     def tags(self, tb, scen_code):
@@ -750,15 +840,16 @@ class View:
 def run_impl(env, case, spy=None):
     """Run one case on the real code; returns the canonical line (same format as the driver)."""
     body = case['body']
-    r = render(body, spy is not None)
+    forms = forms_of(case)
+    r = render(body, spy is not None, forms)
     E, classes, preset = env.make_excs(case['kinds'])
     view = View(env, E, classes, preset, r.fn.__code__)
     uses_path = has_rp(body)
     if uses_path:
         env.set_path(case['path'])
-    env.log, env.pending = [], None
-    FILT, OBJ = env.make_filters(E, r.filt) if r.filt else ([], [])
-    RMS = {'n': env.noop, 'w': env.delegating}
+    env.log, env.sinks, env.pending = [], [], None
+    FILT, OBJ = env.make_filters(E, r.filt, FILTER_FORMS[forms[1]]) if r.filt else ([], [])
+    RMS = {'n': env.noop, 'w': env.delegating, 'd': env.FU.delete_if_exists}
     for k in range(len(E)):
         RMS[k] = env.make_remove(E, k)
     OUT = []
@@ -1041,11 +1132,46 @@ def gen_cases(ctx):
                 for _ in range(3)]
         yield {'flag': rng.randrange(2), 'kinds': [rng.choice(KINDS) for _ in range(3)], 'path': 'file',
                'body': seq_of([['sw', uses[0]], ['sw', uses[1]], uses[2]])}, 'reuse/three'
-    # 7. random bodies over the whole grammar
+    # 7. every legal call form of the pinned signatures, for the same logical arguments
+    for cf in range(len(SRE_FORMS)):
+        for body in bodies_upto(2 if ctx.quick else 3):
+            for b in (0, 1):
+                kinds = [rng.choice(KINDS_CORE), rng.choice(KINDS_CORE), 'plain']
+                yield {'flag': 1, 'kinds': kinds, 'path': 'file', 'forms': [cf, 0, 0, 0],
+                       'body': ['h', 0, ['nest', b, body]]}, 'call-form/sre'
+                yield {'flag': b, 'kinds': kinds, 'path': 'file', 'forms': [cf, 0, 0, 0],
+                       'body': ['h', 0, ['ec', body]]}, 'call-form/sre'
+        for pat in FLAG_PATTERNS:
+            for late in LATES[:3]:
+                for b in (0, 1):
+                    yield {'flag': 1, 'kinds': ['plain', 'args', 'plain'], 'path': 'file', 'forms': [cf, 0, 0, 0],
+                           'body': ['hnt', 0, b, pat, late]}, 'call-form/sre'
+    for ff in range(len(FILTER_FORMS)):
+        for form in FORMS:
+            for (acc, rais), style in itertools.product(PREDS[:5], STYLES[:4]):
+                for k in (0, 1):
+                    yield {'flag': 1, 'kinds': ['plain', 'base', 'plain'], 'path': 'file', 'forms': [5, ff, 0, 0],
+                           'body': ['fx', form, acc, rais, ['rn', k], list(style)]}, 'call-form/filter'
+                    yield {'flag': 1, 'kinds': ['plain', 'base', 'plain'], 'path': 'file', 'forms': [5, ff, 0, 0],
+                           'body': ['h', k, ['fc', form, acc, rais, k, list(style)]]}, 'call-form/filter'
+    for pf in range(len(RPOE_FORMS)):
+        for rm in REMOVERS:
+            for path in PATHS:
+                for inner in (['rn', 0], ['nop'], ['h', 0, ['nest', 1, ['nop']]], ['rn', 1]):
+                    yield {'flag': 1, 'kinds': ['plain', 'kbd', 'plain'], 'path': path, 'forms': [5, 0, pf, 0],
+                           'body': ['rp', rm, inner]}, 'call-form/rpoe'
+    for wf in range(len(RWC_FORMS)):
+        for x in ('N', 'none', 0, 1):
+            for w in wrappers:
+                yield {'flag': 1, 'kinds': ['plain', 'plain', 'plain'], 'path': 'file', 'forms': [5, 0, 0, wf],
+                       'body': w(['rwc', x])}, 'call-form/rwc'
+    # 8. random bodies over the whole grammar (random call forms)
     for _ in range(4000 if ctx.quick else 150000):
         body = random_body(rng, rng.randrange(1, 10))
         yield {'flag': rng.randrange(2), 'kinds': [rng.choice(KINDS) for _ in range(3)],
-               'path': rng.choice(PATHS), 'body': body}, 'random'
+               'path': rng.choice(PATHS), 'body': body,
+               'forms': [rng.randrange(len(SRE_FORMS)), rng.randrange(len(FILTER_FORMS)),
+                         rng.randrange(len(RPOE_FORMS)), rng.randrange(len(RWC_FORMS))]}, 'random'
 
 
 def correspondence(ctx):
@@ -1065,7 +1191,7 @@ def correspondence(ctx):
                     continue
                 ctx.count('out/' + impl.split(' ')[0][4:].replace('R:', ''))
                 if has_helper(case['body']) and any(t != '-' for t in impl.rsplit('tbs=', 1)[1].split(' ')[0].split('|')):
-                    ctx.nontrivial((case['flag'], tuple(case['kinds']), case['path'], ser(case['body'])))
+                    ctx.nontrivial((case['flag'], tuple(case['kinds']), case['path'], ser(case['body']), forms_of(case)))
                 if tag == 'random' or ctx.evaluations % 5000 == 1:
                     ctx.sample({'case': case, 'implementation': impl}, 6)
                 if impl != rep:
@@ -1115,6 +1241,15 @@ class Spy:
 
     def rec(self, i):
         return self.inst.setdefault(i, {'orig': None, 't0': [], 'forced': 0, 'in': None})
+
+    def made(self, i, obj, flag, sink):
+        """a context was just constructed for the logical arguments (reraise=flag, logger -> sink), in whatever
+        call form the case uses: its flag must be that flag"""
+        r = self.rec(i)
+        r['sink'] = sink
+        if obj.reraise is not flag:
+            self.fail('constructor-flag-wrong', 'save_and_reraise_exception constructed with reraise=%r has '
+                      'reraise == %r' % (flag, obj.reraise))
 
     def snapshot(self, ex):
         return (ex, self.view.tags(ex.__traceback__) if ex is not None else [])
@@ -1167,8 +1302,10 @@ class Spy:
                 r['forced'] += 1
         return _Probe(enter, exit)
 
-    def sre_in(self, i, c):
+    def sre_in(self, i, c, obj=None):
         r = self.rec(i)
+        if obj is not None and c is not obj:
+            self.fail('enter-returned-other-object', '`with ctxt as c`: c is not ctxt')
 
         def exit(val):
             r['in'] = (val, self.view.tags(val.__traceback__) if val is not None else [], c.reraise,
@@ -1244,6 +1381,9 @@ class Spy:
                 a = self.env.log[-1]
                 if a is None or len(a) != 3 or a[1] is not orig:
                     return self.fail('logged-not-the-original', 'logged %r, original %s' % (a, w(orig)), klass)
+            if flag and r.get('sink') and self.env.sinks[-1] != r['sink']:
+                return self.fail('logged-to-the-wrong-logger', 'the dropped original went to %s, the context was '
+                                 'given %s' % (self.env.sinks[-1], r['sink']), klass)
             return
         if dlog != 0:
             return self.fail('logged-on-normal-exit', 'body completed, %d log call(s)' % dlog, klass)
@@ -1280,8 +1420,10 @@ class Spy:
             return self.fail('reraise-chain-lost', 'the original %s was re-raised but %s' % (w(out), lost), klass)
 
     # -- probes that only record how a body ended --------------------------
-    def plain_in(self, i):
+    def plain_in(self, i, got=None, obj=None):
         r = self.rec(i)
+        if got is not obj:
+            self.fail('enter-returned-other-object', '`with filt as f`: f is not filt')
 
         def exit(val):
             r['in'] = (val, self.view.tags(val.__traceback__) if val is not None else [], None, len(self.env.log))
@@ -1429,6 +1571,104 @@ def oracle(env, case):
     return spy.failures[0] if spy.failures else None
 
 
+# forever_retry_uncaught_exceptions(*args, **kwargs): bare decorator, called decorator, keywords retry_delay /
+# same_log_delay in either order, applied by a plain call.  (Not in the Lean model: stated here directly.)
+FR_FORMS = ['bare', 'call', 'empty-call', 'delay', 'log-delay', 'both', 'both-permuted']
+FR_SCRIPTS = [[], ['a'], ['a', 'a', 'a'], ['a', 'b', 'b', 'a'], ['a', 'B!'], ['B!'], ['a', 'a', 'b', 'B!']]
+
+
+def forever_retry_case(env, fc):
+    """Run one decorated function; returns what is wrong (text) or None.  fc = {'form', 'delay', 'script'}:
+    the function fails with Exception(msg) for every script entry ('X!' is a BaseException-only failure) and
+    then returns a sentinel."""
+    import time as time_mod
+    from oslo_utils import timeutils
+    X = env.X
+    form, delay, script = fc['form'], fc['delay'], list(fc['script'])
+
+    class Stop(BaseException):
+        pass
+
+    sentinel = object()
+    calls, sleeps, logs, raised = [], [], [], []
+
+    def work(*a, **kw):
+        calls.append((a, kw))
+        if len(calls) <= len(script):
+            m = script[len(calls) - 1]
+            ex = Stop(m) if m.endswith('!') else ValueError(m)
+            raised.append(ex)
+            raise ex
+        return sentinel
+
+    deco = X.forever_retry_uncaught_exceptions
+    if form == 'bare':
+        fn, want_delay = deco(work), 1.0
+        # (the documented `@forever_retry_uncaught_exceptions` without parentheses)
+    elif form == 'call':
+        fn, want_delay = deco(work), 1.0
+    elif form == 'empty-call':
+        fn, want_delay = deco()(work), 1.0
+    elif form == 'delay':
+        fn, want_delay = deco(retry_delay=delay)(work), max(0.0, float(delay))
+    elif form == 'log-delay':
+        fn, want_delay = deco(same_log_delay=1000.0)(work), 1.0
+    elif form == 'both':
+        fn, want_delay = deco(retry_delay=delay, same_log_delay=1000.0)(work), max(0.0, float(delay))
+    else:
+        fn, want_delay = deco(same_log_delay=1000.0, retry_delay=delay)(work), max(0.0, float(delay))
+    saved = (time_mod.sleep, timeutils.now, logging.exception)
+    time_mod.sleep = lambda d: sleeps.append(d)
+    timeutils.now = lambda: 0.0                      # frozen clock: the "same message" window never expires
+    logging.exception = lambda *a, **kw: logs.append(a)
+    try:
+        out = _invoke2(fn, (1, 2), {'k': 3})
+    finally:
+        time_mod.sleep, timeutils.now, logging.exception = saved
+    stop_at = next((i for i, m in enumerate(script) if m.endswith('!')), None)
+    failures = script if stop_at is None else script[:stop_at]
+    if getattr(fn, '__name__', None) != 'work':
+        return 'the decorated function is called %r, not work' % getattr(fn, '__name__', None)
+    if any(c != ((1, 2), {'k': 3}) for c in calls):
+        return 'arguments not passed through: %r' % (calls,)
+    if stop_at is None:
+        if out != ('returned', sentinel):
+            return 'after %d failures the call gave %r instead of the function\'s result' % (len(script), out)
+        if len(calls) != len(script) + 1:
+            return '%d calls for %d failures' % (len(calls), len(script))
+    else:
+        if out[0] != 'raised' or out[1] is not raised[stop_at]:
+            return 'a BaseException-only failure must propagate as the same object; got %r' % (out,)
+        if len(calls) != stop_at + 1:
+            return '%d calls, the %dth raised a BaseException' % (len(calls), stop_at + 1)
+    if sleeps != [want_delay] * len(failures):
+        return 'sleeps %r, expected %d x %r' % (sleeps, len(failures), want_delay)
+    want_logs = sum(1 for i, m in enumerate(failures) if i == 0 or failures[i - 1] != m)
+    if len(logs) != want_logs:
+        return '%d log call(s) for the failure messages %r, expected %d' % (len(logs), failures, want_logs)
+    return None
+
+
+def _invoke2(fn, a, kw):
+    try:
+        return ('returned', fn(*a, **kw))
+    except BaseException as ex:      # noqa: B902
+        return ('raised', ex)
+
+
+def check_forever_retry(ctx, env):
+    for form in FR_FORMS:
+        for delay in (0.25, 0, -2, 3):
+            for script in FR_SCRIPTS:
+                fc = {'form': form, 'delay': delay, 'script': script}
+                ctx.evaluations += 1
+                why = forever_retry_case(env, fc)
+                if why:
+                    ctx.count('search/fail/forever-retry')
+                    return Failure({'forever_retry': fc}, {'kind': 'forever-retry', 'what': why})
+    return None
+
+
 def shrink_body(body, still_fails):
     """smallest body (by replacing a node with one of its children, or dropping a side of a seq) that fails"""
     def variants(b):
@@ -1464,6 +1704,25 @@ def search(ctx, seeds, full=False):
                               ['ctx', 'chained', 'plain']):
                     yield {'flag': 1, 'kinds': kinds, 'path': 'file', 'body': ['h', 0, ['nest', b, body]]}
                     yield {'flag': b, 'kinds': kinds, 'path': 'file', 'body': body}
+        for cf in range(len(SRE_FORMS)):
+            for body in bodies_upto(1):
+                for b in (0, 1):
+                    yield {'flag': 1, 'kinds': ['plain', 'args', 'plain'], 'path': 'file', 'forms': [cf, 0, 0, 0],
+                           'body': ['h', 0, ['nest', b, body]]}
+                    yield {'flag': b, 'kinds': ['plain', 'args', 'plain'], 'path': 'file', 'forms': [cf, 0, 0, 0],
+                           'body': ['h', 0, ['ec', body]]}
+        for ff, form, (acc, rais), k in itertools.product(range(len(FILTER_FORMS)), FORMS, PREDS[:4], (0, 1)):
+            yield {'flag': 1, 'kinds': ['plain', 'base', 'plain'], 'path': 'file', 'forms': [5, ff, 0, 0],
+                   'body': ['fx', form, acc, rais, ['rn', k]]}
+            yield {'flag': 1, 'kinds': ['plain', 'base', 'plain'], 'path': 'file', 'forms': [5, ff, 0, 0],
+                   'body': ['h', k, ['fc', form, acc, rais, k]]}
+        for pf, rm, path in itertools.product(range(len(RPOE_FORMS)), REMOVERS, PATHS):
+            for inner in (['rn', 0], ['nop']):
+                yield {'flag': 1, 'kinds': ['plain', 'plain', 'plain'], 'path': path, 'forms': [5, 0, pf, 0],
+                       'body': ['rp', rm, inner]}
+        for wf, x in itertools.product(range(len(RWC_FORMS)), ('N', 'none', 0, 1)):
+            yield {'flag': 1, 'kinds': ['plain', 'plain', 'plain'], 'path': 'file', 'forms': [5, 0, 0, wf],
+                   'body': ['h', 0, ['rwc', x]]}
         for pat in FLAG_PATTERNS:
             for kind in KINDS:
                 for b in (0, 1):
@@ -1516,7 +1775,9 @@ def search(ctx, seeds, full=False):
         for _ in range(n):
             yield {'flag': rng.randrange(2), 'kinds': [rng.choice(KINDS) for _ in range(3)],
                    'path': rng.choice(PATHS),
-                   'body': random_body(rng, rng.randrange(1, 9))}
+                   'body': random_body(rng, rng.randrange(1, 9)),
+                   'forms': [rng.randrange(len(SRE_FORMS)), rng.randrange(len(FILTER_FORMS)),
+                             rng.randrange(len(RPOE_FORMS)), rng.randrange(len(RWC_FORMS))]}
 
     with Env() as env:
         for case in candidates():
@@ -1538,6 +1799,10 @@ def search(ctx, seeds, full=False):
             fails.append(Failure(small, {'kind': w2['kind'], 'what': w2['what']}, w2['class']))
             if len(fails) >= 6:
                 break
+        if len(fails) < 6:
+            f = check_forever_retry(ctx, env)
+            if f:
+                fails.append(f)
         # the two entry points of one filter must agree: `with filt: raise e` ends normally exactly when
         # `filt(e)` returns, for the same predicate and the same answer object
         if len(fails) < 6:
@@ -1563,6 +1828,8 @@ def classify(ctx, failure, listed_findings):
     failing context had a direct force_reraise() before it was left (recorded by the probes) and the program is in
     the static class; every other failure is new."""
     kind = failure.detail.get('kind') if isinstance(failure.detail, dict) else None
+    if 'body' not in failure.case:
+        return None
     if failure.klass != N1 or kind != 'reraise-not-original' or not in_class_N1(failure.case['body']):
         return None
     return N1 if any(f.get('id') == N1 for f in listed_findings) else None
@@ -1584,8 +1851,14 @@ def replay(ctx, payload):
         print('nothing to replay: this file names the obligation that no longer checks:')
         print(payload.get('no_longer_checks'))
         return 0
-    print(render(case['body'], False).src)
-    print('flag=%s kinds=%s path=%s' % (case['flag'], case['kinds'], case['path']))
+    if 'forever_retry' in case:
+        with Env() as env:
+            why = forever_retry_case(env, case['forever_retry'])
+        print('forever_retry_uncaught_exceptions case %r' % (case['forever_retry'],))
+        print('property oracle on the implementation:', why)
+        return 1 if why else 0
+    print(render(case['body'], False, forms_of(case)).src)
+    print('flag=%s kinds=%s path=%s forms=%s' % (case['flag'], case['kinds'], case['path'], forms_of(case)))
     with Env() as env:
         print('implementation:', run_impl(env, case))
         print('model         :', ctx.driver.ask(case_line(case)))
